@@ -59,6 +59,7 @@ type interpreter struct {
 	nativeCalls  map[string]int64
 	initPkgs     []*ssa.Package
 	assertsSymbolic int64
+	pathStart    int64
 }
 
 type deferred struct {
@@ -640,8 +641,8 @@ func runFrame(fr *frame) {
 		nonPhis := executePhis(fr)
 		for _, instr := range nonPhis {
 			fr.i.steps++
-			if fr.i.steps&0xfff == 0 && fr.i.steps > fr.i.cfg.MaxSteps {
-				panic(pathAbort{kind: abortBudget, msg: "instruction budget exhausted"})
+			if fr.i.steps&0xfff == 0 && fr.i.steps-fr.i.pathStart > fr.i.cfg.MaxSteps {
+				panic(pathAbort{kind: abortBudget, msg: "instruction budget exhausted in" + fr.stack()})
 			}
 			if fr.i.trace {
 				if v, ok := instr.(ssa.Value); ok {
